@@ -463,6 +463,7 @@ def check(model, rep):
     r056(model, rep, ck)
     r057(model, rep, ck)
     r0510(model, rep, ck)
+    r0511(model, rep, ck)
     from . import frames
     rep.rule('R05.9', 'kinematics methods of Arm: every relative transform inv(A) @ B / globalToLocal(A, B) is taken between poses expressed in the same frame (world vs base)')
     kin = [fi for name, fi in sorted(ck.arm.methods.items()) if not ('ynamics' in name or name in ('massMatrix', 'coriolisGravity'))]
@@ -472,6 +473,77 @@ def check(model, rep):
     n = closure_obligations(model, rep, 'R05.8', [ck.arm.methods[m] for m in ('FK', 'FKJoint', 'FKLink', 'initialize', 'move') if m in ck.arm.methods],
                             'Arm forward kinematics (FKinSpace and the adjoint used on base changes)')
     rep.floor('R05.8', 'shared primitives under arm FK', len(n), 6)
+
+
+
+def r0511(model, rep, ck):
+    """Pose fields that share their object with a backup are only ever re-bound.  If some method binds one pose field of the arm to
+    the object held by another (`self._end_effector_home = self._original_end_effector_home`, no copy), then writing INTO either of
+    them (element store, augmented assignment, a mutating method of tm) changes both: the backup is lost for good."""
+    rep.rule('R05.11', 'pose fields of the arm that can share their object (a restore without copy) are never mutated in place')
+    arm = ck.arm
+    tmcls = model.cls('basic_robotics.general.faser_transform', 'tm')
+    # mutating methods of tm: those that store to self.TM / self.TAA (directly or through another such method)
+    writes = set()
+    changed = True
+    while changed:
+        changed = False
+        for name, f_ in tmcls.methods.items():
+            if name in writes or name.startswith('from') or name == '__init__':
+                continue
+            for n in walk_own(f_.node):
+                tg = n.targets if isinstance(n, ast.Assign) else ([n.target] if isinstance(n, ast.AugAssign) else [])
+                hit = False
+                for t in tg:
+                    b = t
+                    while isinstance(b, ast.Subscript):
+                        b = b.value
+                    if isinstance(b, ast.Attribute) and isinstance(b.value, ast.Name) and b.value.id == 'self' and b.attr in ('TM', 'TAA'):
+                        hit = True
+                if isinstance(n, ast.Call) and isinstance(n.func, ast.Attribute) and isinstance(n.func.value, ast.Name) and n.func.value.id == 'self' \
+                        and n.func.attr in writes:
+                    hit = True
+                if hit and not name.startswith('__') or (hit and name in ('__setitem__', '__iadd__', '__isub__', '__imul__', '__imatmul__')):
+                    writes.add(name)
+                    changed = True
+                    break
+    pure_like = {'copy', 'inv', 'gTM', 'gTAA', 'getQuat', 'adjoint', 'exp6', 'tripleUnit', 'quatPos', 'spaceFrame', 'flatten', 'gPos', 'gRot'}
+    mutators = {m for m in writes if m not in pure_like and not m.startswith('TAAtoTM') and not m.startswith('TMtoTAA')} | {'TAAtoTM', 'TMtoTAA'} & set(tmcls.methods)
+    # sharing edges: self.A = self.B (no copy) in any method of Arm
+    shared = set()
+    for f_ in arm.methods.values():
+        for n in walk_own(f_.node):
+            if isinstance(n, ast.Assign) and len(n.targets) == 1 and isinstance(n.targets[0], ast.Attribute) and src(n.targets[0].value) == 'self' \
+                    and isinstance(n.value, ast.Attribute) and src(n.value.value) == 'self':
+                shared |= {n.targets[0].attr, n.value.attr}
+    rep.note('pose fields that may share one object: %s; mutating methods of tm: %s' % (sorted(shared), sorted(mutators)))
+    n_sites = 0
+    for f_ in arm.methods.values():
+        for n in walk_own(f_.node):
+            fld, how = None, None
+            if isinstance(n, (ast.Assign, ast.AugAssign)):
+                for t in (n.targets if isinstance(n, ast.Assign) else [n.target]):
+                    if isinstance(t, ast.Subscript):
+                        b = t
+                        while isinstance(b, ast.Subscript):
+                            b = b.value
+                        if isinstance(b, ast.Attribute) and src(b.value) == 'self':
+                            fld, how = b.attr, 'element store'
+                    if isinstance(n, ast.AugAssign) and isinstance(t, ast.Attribute) and src(t.value) == 'self':
+                        fld, how = t.attr, 'augmented assignment'
+            if isinstance(n, ast.Call) and isinstance(n.func, ast.Attribute) and n.func.attr in mutators and isinstance(n.func.value, ast.Attribute) \
+                    and src(n.func.value.value) == 'self':
+                fld, how = n.func.value.attr, '.%s(...)' % n.func.attr
+            if fld is not None and fld in shared:
+                n_sites += 1
+                rep.ob('R05.11', f_, src(n)[:80], False,
+                       'self.%s is changed in place (%s) although it can be the very object another pose field of the arm holds (%s are bound to each '
+                       'other without a copy): the change also rewrites the other one, e.g. the saved original tool pose after a restore'
+                       % (fld, how, sorted(shared)), line=n.lineno)
+    if n_sites == 0:
+        rep.ob('R05.11', arm.methods['restoreOriginalEE'] if 'restoreOriginalEE' in arm.methods else arm.module.relpath,
+               'no in-place change of a shareable pose field (%s)' % ', '.join(sorted(shared)), True)
+    rep.count('R05.11 shareable pose fields', len(shared))
 
 
 def r0510(model, rep, ck):
